@@ -110,6 +110,7 @@ def bounded_subfields(reg, tier, seed):
         elif name.endswith("ObjectData.State"):
             ctxs = [{"PCode": p} for p in (9, 47, 95, 111, 255, 143)]
         accepted_total = 0
+        nudges_left = [60 if tier == "quick" else 1200]
         for cv in ctxs:
             bb = _ctx_block(msg, block, **cv)
             tmpl = None
@@ -184,7 +185,32 @@ def bounded_subfields(reg, tier, seed):
                     except Exception:  # noqa
                         same = True
                     if not same:
-                        fail(f"subfield/bytes/{name}", f"{name}: fixed point decodes to a different value", {"field": name, "payload": _h(p), "pod": pod})
+                        # microsecond dates above 2^53 go through float seconds: one root cause (the recorded date-precision finding),
+                        # whether it shows as a changed integer or as a changed decoded value
+                        k_ = f"subfield/date-precision/{name}" if ("Date" in var and isinstance(p, int) and p > 2 ** 53) else f"subfield/bytes/{name}"
+                        fail(k_, f"{name}: fixed point decodes to a different value", {"field": name, "payload": _h(p), "pod": pod})
+                    if pod and nudges_left[0] > 0:
+                        # value side of "every payload the serializer can itself produce survives byte for byte": plain-data values near
+                        # the decoded one (float leaves moved by about one quantisation step, or put next to zero) are serialized, and
+                        # what the serializer produced must come back unchanged from one decode-encode pass
+                        for d_n in _nudged(d, rng, 3):
+                            nudges_left[0] -= 1
+                            evals += 1
+                            try:
+                                q1 = ser.serialize(bb, d_n)
+                            except Exception:  # noqa
+                                continue        # not a value of this serializer's domain
+                            try:
+                                dq = ser.deserialize(bb, q1, pod=True)
+                                dq = getattr(dq, "__wrapped__", dq)
+                                q2 = ser.serialize(bb, dq)
+                            except Exception as ex:  # noqa
+                                fail(f"subfield/produced/{name}", f"{name}: payload produced by the serializer itself does not decode/encode again: "
+                                     f"{type(ex).__name__}: {ex}", {"field": name, "value": repr(d_n)[:300], "produced": _h(q1)})
+                                continue
+                            if q2 != q1:
+                                fail(f"subfield/produced/{name}", f"{name}: payload produced by the serializer itself ({_h(q1)[:120]}) does not survive "
+                                     f"byte for byte (comes back as {_h(q2)[:120]})", {"field": name, "value": repr(d_n)[:300], "produced": _h(q1), "reencoded": _h(q2)})
                     if pod:
                         try:
                             if _finite(d) and _ast.literal_eval(repr(d)) != d:
@@ -276,6 +302,52 @@ def te_payloads(rng, n):
                 used.add(key)
                 buf += _face_bits(faces) + val(kind)
         out.append(bytes(buf))
+    return out
+
+
+_STEPS = (1.5e-05, 3.06e-05, 1e-4, 1.92e-4, 1e-3, 3.93e-3, 0.01)
+
+
+def _nudged(d, rng, n):
+    """up to n copies of the plain-data value d, each with one float leaf replaced by a value one small step away from it or from
+    zero (|value| kept below 6: the packed rotation's raw -32768 is the C10 known finding and is not re-reported here)"""
+    import copy
+    paths = []
+
+    def walk(x, path):
+        if isinstance(x, float):
+            paths.append(path)
+        elif isinstance(x, (list, tuple)):
+            for i, y in enumerate(x):
+                walk(y, path + (i,))
+        elif isinstance(x, dict):
+            for k, y in x.items():
+                walk(y, path + (k,))
+    walk(d, ())
+    out = []
+    for _ in range(n):
+        if not paths:
+            break
+        path = rng.choice(paths)
+        step = rng.choice(_STEPS) * rng.choice((1, -1))
+
+        def rebuild(x, rest):
+            if not rest:
+                base = 0.0 if rng.random() < 0.5 else x
+                v = base + step
+                return v if abs(v) < 6 else x
+            k = rest[0]
+            if isinstance(x, dict):
+                y = dict(x)
+                y[k] = rebuild(x[k], rest[1:])
+                return y
+            y = list(x)
+            y[k] = rebuild(x[k], rest[1:])
+            return tuple(y) if isinstance(x, tuple) else y
+        try:
+            out.append(rebuild(copy.deepcopy(d), path))
+        except Exception:  # noqa
+            pass
     return out
 
 
